@@ -145,7 +145,7 @@ fn check_line(line: &str, rep: &mut Report, replay: &dyn Fn() -> Vec<String>) {
     }
 }
 
-const ALPHABET: [&str; 18] = [" ", "\\", "n", "r", "\r", "\n", "\0", ")", "(", "=", "é", "否", "😀", "\u{FFFD}", "A", "g", "0", "f"];
+const ALPHABET: [&str; 24] = [" ", "\\", "n", "r", "\r", "\n", "\0", ")", "(", "=", "é", "否", "😀", "\u{FFFD}", "A", "g", "0", "f", "+", "-", "_", "\t", "x", "."];
 
 fn base_lines(rng: &mut Rng) -> Vec<String> {
     let h = hex(&rng.array32());
